@@ -526,10 +526,11 @@ def shift_rules(ck, rule_type, rule_growth, rule_pure):
             F_nfrac = F_nword = None
             fresh_copy = False
             if isinstance(recv, ast.Call) and prog.is_fxp_ctor(m, recv):
-                F_nfrac, F_nword = kw(recv, "n_frac"), kw(recv, "n_word")
-                okfmt = dotted(kw(recv, "signed")) == "self.signed"
+                # constructor arguments by keyword or by position: Fxp(val, signed, n_word, n_frac, n_int, ...)
+                F_nfrac, F_nword = kw(recv, "n_frac", 3), kw(recv, "n_word", 2)
+                okfmt = dotted(kw(recv, "signed", 1)) == "self.signed"
                 if not okfmt:
-                    ck.bad(rule_growth, m, "the result keeps the operand's signedness", "signed=%s" % (src(kw(recv, "signed")) if kw(recv, "signed") is not None else None), node)
+                    ck.bad(rule_growth, m, "the result keeps the operand's signedness", "signed=%s" % (src(kw(recv, "signed", 1)) if kw(recv, "signed", 1) is not None else None), node)
                     continue
             elif isinstance(recv, ast.Call) and isinstance(recv.func, ast.Attribute) and recv.func.attr == "deepcopy" and dotted(recv.func.value) == "self":
                 fresh_copy = True
